@@ -292,7 +292,18 @@ def extract(ctx):
 
     # ---- row-wise numerics of the residual (T3): the statements the generic model transcribes -------------
     rt = X.find(st, 'LighthouseGeometrySolver._rotate_translate')
-    g.strings('rotateTranslateAssigns', _assigns(rt))
+    # `v = np.nan_to_num(v, ...)`: the call is normalised (keyword arguments listed separately) so that spelling out the
+    # replacement values for +-inf (all 0, as the model assumes) does not trip the obligation; a non-zero `nan=` does
+    rt_assigns = []
+    for n in _stmts(rt, (ast.Assign, ast.AugAssign)):
+        v = getattr(n, 'value', None)
+        if isinstance(n, ast.Assign) and isinstance(v, ast.Call) and ast.unparse(v.func) == 'np.nan_to_num':
+            g.strings('nanToNumKeywords', ['%s=%s' % (k.arg, ast.unparse(k.value)) for k in v.keywords])
+            rt_assigns.append('%s = np.nan_to_num(%s)' % (ast.unparse(n.targets[0]), ', '.join(ast.unparse(a) for a in v.args)))
+        else:
+            rt_assigns.append(ast.unparse(n))
+    X.expect(sum(1 for a in rt_assigns if 'nan_to_num' in a) == 1, '_rotate_translate: expected exactly one np.nan_to_num assignment')
+    g.strings('rotateTranslateAssigns', rt_assigns)
     g.strings('rotateTranslateReturns', _returns(rt))
     cap = X.find(st, 'LighthouseGeometrySolver._calc_angle_pairs')
     g.strings('calcAnglePairsAssigns', _assigns(cap))
